@@ -6,12 +6,17 @@
     for [#[packed]]), has exactly the resolved size and the resolved alignment, every field at the
     prefix sum of the preceding field sizes (the compiler inserts no padding of its own), and a
     declared [#[size(N)]] is that size.  Field sizes/alignments are the registry's, i.e. those of
-    the items the field types name. *)
+    the items the field types name.
+    REFUTED ON THE MODEL (RefutedWitnesses*.v; open findings F4b, F9): [C02_vftable_named_type_replaced_refuted_F4b]
+    -- an accepted build in which a user type named <T>Vftable is replaced by T's generated table: its user is resolved
+    with size 16 while the emitted struct lays out as 8; [C02_void_by_value_refuted_F9] -- resolved size 1, compiled 2. *)
 From Coq Require Import List NArith Bool.
 From PyxisModel Require Import Base Grammar SemTypes Registry Sem RustLayout LayoutLemmas SemLemmas
      WholeBuild Examples.
 Import ListNotations.
 Local Open Scope N_scope.
+
+From PyxisModel Require RefutedInputs RefutedWitnessesOrder RefutedWitnessesEmit RefutedWitnessesFn.
 
 Theorem C02_struct_layout : forall st p v d st' rs,
   type_build st p v d = (st', Ok rs) ->
@@ -147,3 +152,58 @@ Theorem C02_emitted_vftable_size_align :
 Proof. exact emitted_vftable_size_align_whole_build. Qed.
 Print Assumptions C02_emitted_vftable_size_align.
 
+Theorem C02_vftable_named_type_replaced_refuted_F4b :
+  exists (st0 st : sstate) (files : RefutedInputs.files_t),
+      RefutedInputs.built RefutedWitnessesOrder.f4b_sched 8 RefutedInputs.f4b_mods st0 st files /\
+      collision_freeb (st_reg st0) = false /\
+      ~ collision_free (st_reg st0) /\
+      option_map it_state (reg_get (st_reg st0) RefutedWitnessesOrder.p_FooVftable) =
+      Some (Unresolved RefutedWitnessesOrder.f4b_user_def) /\
+      reg_get (st_reg st) RefutedWitnessesOrder.p_FooVftable <> None /\
+      reg_get (st_reg st) RefutedWitnessesOrder.p_FooVftable =
+      RefutedWitnessesOrder.generated_vftable_item st RefutedWitnessesOrder.p_Foo Private /\
+      RefutedInputs.size_at st RefutedWitnessesOrder.p_FooVftable = Some 8 /\
+      option_map FilesRead.file_decls (RefutedInputs.file_named files "a.rs") =
+      Some
+        [("struct"%string, "Foo"%string); ("struct"%string, "FooVftable"%string);
+         ("struct"%string, "User"%string)] /\
+      option_map (map EmitReaders.ef_name)
+        (RefutedInputs.thenr (RefutedInputs.struct_of files "a.rs" "FooVftable")
+           EmitReaders.struct_fields) = Some ["f"%string] /\
+      RefutedInputs.size_at st RefutedWitnessesOrder.p_User = Some 16 /\
+      option_map (map (fun r : region => (r_name r, r_type r)))
+        (RefutedInputs.regions_at st RefutedWitnessesOrder.p_User) =
+      Some [(Some "x"%string, TRaw RefutedWitnessesOrder.p_FooVftable)] /\
+      RefutedInputs.thenr (RefutedInputs.struct_of files "a.rs" "User")
+        (EmitLayout.emitted_struct_layout
+           (map (EmitLayout.type_sa (st_reg st)) [TRaw RefutedWitnessesOrder.p_FooVftable])) =
+      Some ([("x"%string, 0)], 8, 8) /\ RefutedInputs.size_check_of files "a.rs" "User" = Some (16, 16).
+Proof. exact RefutedWitnessesOrder.C14_C02_vftable_named_type_replaced_refuted_F4b. Qed.
+Print Assumptions C02_vftable_named_type_replaced_refuted_F4b.
+
+Theorem C02_void_by_value_refuted_F9 :
+  exists (st0 st : sstate) (files : RefutedInputs.files_t),
+      RefutedInputs.built [] 4 RefutedInputs.f9_mods st0 st files /\
+      RefutedInputs.side_ok st0 = true /\
+      RefutedInputs.size_at st ["a"%string; "T"%string] = Some 1 /\
+      option_map (map r_type) (RefutedInputs.regions_at st ["a"%string; "T"%string]) =
+      Some RefutedWitnessesEmit.f9_tys /\
+      RefutedInputs.thenr (RefutedInputs.struct_of files "a.rs" "T") EmitReaders.struct_repr =
+      Some EmitReaders.ReprPacked /\
+      option_map (map (fun ef : EmitReaders.efield => (EmitReaders.ef_name ef, EmitReaders.ef_ty ef)))
+        (RefutedInputs.thenr (RefutedInputs.struct_of files "a.rs" "T") EmitReaders.struct_fields) =
+      Some [("a"%string, RefutedWitnessesEmit.c_void_tokens); ("b"%string, [Sexp.Atom "u8"])] /\
+      RefutedInputs.size_check_of files "a.rs" "T" = Some (1, 1) /\
+      map (EmitLayout.type_sa (st_reg st)) RefutedWitnessesEmit.f9_tys = [(0, 1); (1, 1)] /\
+      map (RefutedWitnessesEmit.rustc_field_sa (st_reg st)) RefutedWitnessesEmit.f9_tys =
+      [(1, 1); (1, 1)] /\
+      RefutedInputs.thenr (RefutedInputs.struct_of files "a.rs" "T")
+        (EmitLayout.emitted_struct_layout
+           (map (EmitLayout.type_sa (st_reg st)) RefutedWitnessesEmit.f9_tys)) =
+      Some ([("a"%string, 0); ("b"%string, 0)], 1, 1) /\
+      RefutedInputs.thenr (RefutedInputs.struct_of files "a.rs" "T")
+        (EmitLayout.emitted_struct_layout
+           (map (RefutedWitnessesEmit.rustc_field_sa (st_reg st)) RefutedWitnessesEmit.f9_tys)) =
+      Some ([("a"%string, 0); ("b"%string, 1)], 2, 1).
+Proof. exact RefutedWitnessesEmit.C01_C02_void_by_value_refuted_F9. Qed.
+Print Assumptions C02_void_by_value_refuted_F9.
